@@ -132,20 +132,36 @@ def rule_template(ctx):
     tpl = ctx.src(TEMPLATE_C)
     key = "driver::generate_c_driver"
     fn = Fn(fx.fn(key))
+    # the bodies that instantiate the template: generate_c_driver, its closures and the helpers of the driver crate it calls
+    bodies = []
+    todo = [(key, 0)]
+    while todo:
+        k0, dpt = todo.pop()
+        if k0 in bodies:
+            continue
+        bodies.append(k0)
+        for k2, f2 in fx.fns.items():
+            if (f2.get("parent") or "").startswith(k0) and k2 not in bodies and "{promoted" not in k2:
+                todo.append((k2, dpt))
+        if dpt < 2:
+            for _, t in Fn(fx.fns[k0]).calls():
+                k2 = t.get("resolved_key") or (t.get("callee_key") if not t.get("callee_trait") else None)
+                if k2 in fx.fns and fx.fns[k2]["crate"] == "driver" and k2 not in bodies:
+                    todo.append((k2, dpt + 1))
     # needles: const str first arguments of str::replace
     needles = []
-    for bi, t in fn.calls():
+    for fn_b, bi, t in [(fb, bi, t) for fb in [Fn(fx.fns[b]) for b in bodies] for bi, t in fb.calls()]:
         if t.get("callee_name") == "replace" and (t.get("callee") or "").startswith(("alloc::str", "core::str", "alloc::string")):
             a = t["args"][1] if len(t["args"]) > 1 else None
             s = None
             if a and a.get("k") == "const":
                 s = a.get("str")
             elif a:
-                for d in fn.defs().get(op_root(a), []):
+                for d in fn_b.defs().get(op_root(a), []):
                     if d["kind"] == "assign" and d["rv"]["k"] == "use" and d["rv"]["op"].get("str") is not None:
                         s = d["rv"]["op"]["str"]
                     elif d["kind"] == "assign" and d["rv"]["k"] == "ref":
-                        for d2 in fn.defs().get(d["rv"]["pl"]["l"], []):
+                        for d2 in fn_b.defs().get(d["rv"]["pl"]["l"], []):
                             if d2["kind"] == "assign" and d2["rv"]["k"] == "use" and d2["rv"]["op"].get("str") is not None:
                                 s = d2["rv"]["op"]["str"]
             needles.append((s, t["sp"]))
@@ -167,7 +183,7 @@ def rule_template(ctx):
     # conversion function and prototype pieces: string constants used by the two write! loops
     strs = []
     for k2, f2 in fx.fns.items():
-        if k2 == key or (f2.get("parent") or "").startswith(key):
+        if k2 in bodies:
             for b in f2["blocks"]:
                 for st in b["stmts"]:
                     if st["k"] == "assign" and st["rv"]["k"] == "use" and st["rv"]["op"].get("k") == "const":
